@@ -282,6 +282,7 @@ pub struct Ctx {
     /// derived from this seed; the decision is added to the path condition, no alternative is explored. The verdict of the
     /// obligations then covers all inputs that follow the sample's path (stated as a bound in the evidence).
     pub concolic: Option<u64>,
+    pub concretised: bool,
     fval_memo: RefCell<HashMap<u32, f64>>,
 }
 struct Level { smt: String, nl: bool, special: Vec<u32>, vars: Vec<u32>, axioms: Vec<String> }
@@ -385,7 +386,7 @@ impl Ctx {
             solver: Solver::new(timeout_ms), mode: Mode::Symbolic, exact_inputs: HashMap::new(), exact_default: BigRational::zero(),
             var_names: vec![], var_ids: HashMap::new(),
             pc: vec![], decisions: vec![], prefix: vec![], pending: vec![], trace: vec![], cache: HashMap::new(),
-            stats: PathStats::default(), violations: vec![], max_decisions: 400, check_obligations: true, approx: false, n_inputs: 0, branch_nl_timeout_ms: timeout_ms, deadline: None, pc_smt: vec![], levels: vec![], solver_epoch: 0, lin_memo: RefCell::new(HashMap::new()), n_lin_decided: std::cell::Cell::new(0), unit_box: Default::default(), alin_memo: RefCell::new(HashMap::new()), poly_memo: RefCell::new(HashMap::new()), n_poly_decided: std::cell::Cell::new(0), crosscheck_every: 0, ob_seq: 0, crosscheck: (0, 0, 0, vec![]), concolic: None, fval_memo: RefCell::new(HashMap::new()),
+            stats: PathStats::default(), violations: vec![], max_decisions: 400, check_obligations: true, approx: false, n_inputs: 0, branch_nl_timeout_ms: timeout_ms, deadline: None, pc_smt: vec![], levels: vec![], solver_epoch: 0, lin_memo: RefCell::new(HashMap::new()), n_lin_decided: std::cell::Cell::new(0), unit_box: Default::default(), alin_memo: RefCell::new(HashMap::new()), poly_memo: RefCell::new(HashMap::new()), n_poly_decided: std::cell::Cell::new(0), crosscheck_every: 0, ob_seq: 0, crosscheck: (0, 0, 0, vec![]), concolic: None, concretised: false, fval_memo: RefCell::new(HashMap::new()),
         }
     }
     pub fn begin_path(&mut self, prefix: Vec<u8>) {
@@ -940,6 +941,8 @@ impl Ctx {
                 // violated for every input on this path: any model of the PC is a witness
                 let (r, model, raw) = self.query(&[], true);
                 let smt = self.solver.last_query.clone();
+                let mut model = model;
+                if self.concretised { for (k, v) in self.sample_model() { if !model.iter().any(|(n, _)| *n == k) { model.push((k, v)); } } }
                 if r == Sat::Sat || self.pc.is_empty() {
                     self.violations.push(Violation { label: label.into(), kind: "obligation".into(), decisions: self.decisions.clone(), model, model_raw: raw, smt, detail: format!("obligation is concretely false on this path: {:?}", self.describe(&c)) });
                 } else { self.stats.inconclusive.push(format!("{} (concretely false, PC {:?})", label, r)); }
@@ -959,6 +962,10 @@ impl Ctx {
             Sat::Unsat => { self.stats.discharged += 1; if matches!(c, Cond::Ident(..)) { self.stats.real_equal_only += 1; } }
             Sat::Sat => {
                 let smt = self.solver.last_query.clone();
+                // if data was concretised on this path, the terms depend on the sample point: replay with the sample values for
+                // every input the solver's model does not fix
+                let mut model = model;
+                if self.concretised { for (k, v) in self.sample_model() { if !model.iter().any(|(n, _)| *n == k) { model.push((k, v)); } } }
                 self.violations.push(Violation { label: label.into(), kind: "obligation".into(), decisions: self.decisions.clone(), model, model_raw: raw, smt, detail: self.describe(&c) });
             }
             Sat::Unknown => self.stats.inconclusive.push(label.to_string()),
@@ -1274,7 +1281,13 @@ impl Num for Sym { type FromStrRadixErr = (); fn from_str_radix(_: &str, _: u32)
 impl ToPrimitive for Sym {
     fn to_i64(&self) -> Option<i64> { let _g = enter(); k(*self).and_then(|r| r.to_integer().to_i64()) }
     fn to_u64(&self) -> Option<u64> { let _g = enter(); k(*self).and_then(|r| r.to_integer().to_u64()) }
-    fn to_f64(&self) -> Option<f64> { let _g = enter(); match node(*self) { Node::NaN => Some(f64::NAN), Node::PInf => Some(f64::INFINITY), Node::NInf => Some(f64::NEG_INFINITY), _ => k(*self).map(|r| rat_f64(&r)) } }
+    fn to_f64(&self) -> Option<f64> { let _g = enter(); match node(*self) { Node::NaN => Some(f64::NAN), Node::PInf => Some(f64::INFINITY), Node::NInf => Some(f64::NEG_INFINITY), _ => match k(*self) {
+        Some(r) => Some(rat_f64(&r)),
+        // Code that leaves the generic scalar (converts a data value to f64) cannot be followed symbolically: the value is
+        // concretised to its value on the pseudo-random sample point, so execution can continue; the unit is then reported as
+        // not exhaustive (what follows holds for that sample only). The unchanged crate never does this with data.
+        None => Some(with(|c| { c.stats.events.push(format!("concretised a symbolic value via to_f64(): n{}", self.0)); c.concretised = true; c.fval(self.0) })),
+    } } }
 }
 impl NumCast for Sym {
     fn from<N: ToPrimitive>(n: N) -> Option<Sym> { let _g = enter();
